@@ -155,13 +155,13 @@ fn items_json(items: &[syn::Item], module: &str, out: &mut Vec<Value>) {
     for it in items {
         match it {
             syn::Item::Struct(s) => out.push(json!({
-                "kind":"struct","module":module,"name":s.ident.to_string(),
+                "kind":"struct","module":module,"name":s.ident.to_string(),"vis":toks(&s.vis),
                 "attrs":attrs_json(&s.attrs),"generics":toks(&s.generics),
                 "tuple": matches!(s.fields, syn::Fields::Unnamed(_)),
                 "unit": matches!(s.fields, syn::Fields::Unit),
                 "fields":fields_json(&s.fields)})),
             syn::Item::Enum(e) => out.push(json!({
-                "kind":"enum","module":module,"name":e.ident.to_string(),
+                "kind":"enum","module":module,"name":e.ident.to_string(),"vis":toks(&e.vis),
                 "attrs":attrs_json(&e.attrs),
                 "variants": e.variants.iter().map(|v| json!({
                     "name": v.ident.to_string(),
